@@ -1,5 +1,8 @@
 import ColaVerif.Lemmas.OpMatmat
 import ColaVerif.Lemmas.OpDtype
+import ColaVerif.Lemmas.OpMatmatDtype
+import ColaVerif.Lemmas.KernelOp
+import ColaVerif.Lemmas.TreeWitnesses
 
 /-!
 # C01 — an operator acts on arrays exactly as the matrix it represents (property theorems)
@@ -50,6 +53,43 @@ of the dense computation".  `A.to_dense()` has dtype `A.dtype`, covered by `C01_
 theorem C01_result_dtype (A : Op R) (xdt : DType) : A.mmDtype xdt = A.mmDtypeSpec xdt :=
   Op.mmDtype_eq_spec A xdt
 
+/-- **C01 (result dtype, code model).**  `Op.mmDt A x` (Model/MatmatDtype.lean) computes the dtype
+of `A._matmat(X)` by recursion over the tree from what each class DOES with dtypes: Dense casts both
+operands to the promoted dtype, Identity / Permutation cast the operand, Sliced allocates its
+scatter buffer in the promoted dtype, KronSum accumulates in place into a buffer of the promoted
+dtype, Sum / BlockDiag / Concatenated join their members' results, Product / Kronecker thread the
+operand through the factors, Transpose / Adjoint go through `_rmatmat` (`Op.rmmDt`, with the default
+of `operator_base.py`).  For every tree the constructors accept, the result is the join of the leaf
+dtypes and the operand's dtype.  This is the value the driver prints as the code-model `resdt`. -/
+theorem C01_result_dtype_model (A : Op R) (hwf : A.wf = true) (xdt : DType) :
+    A.mmDt xdt = A.mmDtypeSpec xdt := Op.mmDt_eq_spec A hwf xdt
+
+/-- … which is `promote_types(A.dtype, X.dtype)`, the round-2 definition `Op.mmDtype` -/
+theorem C01_result_dtype_promote (A : Op R) (hwf : A.wf = true) (xdt : DType) :
+    A.mmDt xdt = A.mmDtype xdt := (Op.mmDt_rmmDt_eq A hwf).1 xdt
+
+/-- inside `KronSum._matmat` every member product already has the accumulator's dtype: the in-place
+`out += …` never needs a cast (NumPy refuses a complex-to-real in-place cast) -/
+theorem C01_kronsum_accumulator (Ms : List (Op R)) (hwf : (Op.kronsum Ms).wf = true) (xdt : DType) :
+    ∀ M ∈ Ms, M.mmDt (DType.promote (Op.kronsum Ms).dtype xdt) = (Op.kronsum Ms).mmDt xdt :=
+  Op.kronsum_member_dt Ms hwf xdt
+
+/-- `wf` is needed for the result dtype: `BlockDiag(A_f32, B_c128, multiplicities=[1])` (not `wf`:
+one multiplicity for two blocks) reports complex128, multiplies only the zipped prefix, and returns
+float32 for a float32 operand -/
+theorem C01_result_dtype_wf_needed :
+    let A : Op Int := .bdiag [.dense .f32 1 1 (fun _ _ => 1), .dense .c128 1 1 (fun _ _ => 1)] [1]
+    A.wf = false ∧ A.mmDt .f32 = .f32 ∧ DType.promote A.dtype .f32 = .c128 := Op.mmDt_wf_needed
+
+/-- the recursion really follows the tree: a float32 operand into
+`Sliced(Sum(Identity(f32), Diagonal(c64)))ᵀ` comes back complex64 through the Sliced buffer, the
+Sum's join and the Transpose's `_rmatmat` -/
+example :
+    (Op.transpose (.sliced (.sum [.eye .f32 2, .diag .c64 2 (fun _ => (1 : Int))])
+      (.slice none none none) (.slice none none none))).mmDt .f32 = .c64 := by
+  simp [Op.mmDt, Op.rmmDt, Op.dtype, DType.npJoin, DType.npBin, DType.castTo, DType.promote,
+    DType.mk, DType.isComplex, DType.isDouble]
+
 /-- the specification really is NumPy's promotion table on an example with all four dtypes:
 `kron(f32, prod(c64, f64))` is complex128, and multiplying a float32 array into a
 `sum(f32, c64)` gives complex64 -/
@@ -71,6 +111,53 @@ theorem C01_clause_needed :
       mmul 2 (slicedDen A [0] [0, 0]) (fun _ _ => 1) 0 0 = 2 := by
   decide
 
+/-! ## `Kernel` (not an `Op` constructor: its matrix is given by a callback) -/
+
+omit [StarRing R] [DecidableEq R] in
+/-- **C01 (Kernel).**  `Kernel._matmat` — two nested block loops, the last block of each running to
+the end, also when the block size exceeds the extent — computes `K @ V`, `K i j = fn(x1_i, x2_j)`,
+for all extents, all positive block sizes, every operand.  (`harness/props/c01.py: kernel_stream`
+ties `kernelMatmat` to `cola.ops.Kernel`.) -/
+theorem C01_kernel_matmat (K : MatF R) (n m bs1 bs2 : Nat) (h1 : 0 < bs1) (h2 : 0 < bs2)
+    (V : MatF R) (b : Nat) :
+    EqOn n b (kernelMatmat K n m bs1 bs2 V).f (mmul m K V) := by
+  intro I j hI _
+  rw [kernelMatmat_eq K n m bs1 bs2 h1 h2 V I j hI, mmul_apply]
+
+/-- the blocks the loops visit are consecutive and cover `[0, n)` exactly -/
+theorem C01_kernel_blocks_cover (n bs : Nat) (h : 0 < bs) : BlockChain 0 n (blockRanges n bs) :=
+  blockRanges_cover n bs h
+
+omit [StarRing R] [DecidableEq R] in
+/-- one row block: the column blocks sum every column once -/
+theorem C01_kernel_update (K : MatF R) (lo1 m bs2 : Nat) (h2 : 0 < bs2) (V : MatF R) (i j : Nat) :
+    kernelUpdate K lo1 (blockRanges m bs2) V i j = ∑ q ∈ Finset.range m, K (lo1 + i) q * V q j :=
+  kernelUpdate_eq K lo1 m bs2 h2 V i j
+
+/-- non-trivial instances of the block structure: a ragged last block (5 = 2 + 3), a block size
+larger than the extent (one short block, /repo cc511ed), an exact fit; and the hypothesis `0 < bs`
+is what the Python needs as well (`n // 0` raises) -/
+theorem C01_kernel_blocks_example :
+    blockRanges 5 2 = [(0, 2), (2, 5)] ∧ blockRanges 2 3 = [(0, 2)] ∧
+      blockRanges 6 3 = [(0, 3), (3, 6)] ∧ blockRanges 7 1 = (List.range 7).map (fun i => (i, i + 1)) := by
+  decide
+
+/-! ## the hypotheses are satisfiable, also with SelfAdjoint-reporting nodes -/
+
+/-- **witness for `HermOK` with reporting nodes**: on `hermWitness` (a `Sum` of two declared
+SelfAdjoint complex Hermitian 2 × 2 operators with non-real off-diagonal entries, the second one a
+`no_dispatch` wrapper whose left product takes the conjugation shortcut) all hypotheses hold and
+the root reports SelfAdjoint — so the main theorems apply to it -/
+theorem C01_hermWitness :
+    hermWitness.wf = true ∧ hermWitness.dupSlice = false ∧ hermWitness.HermOK ∧
+      hermWitness.isa .selfAdjoint = true ∧
+      (∀ b X, EqOn hermWitness.rows b (hermWitness.mm b X).f (mmul hermWitness.cols hermWitness.den.f X)) ∧
+      EqOn hermWitness.rows hermWitness.cols hermWitness.td.f hermWitness.den.f :=
+  have h := hermWitness_good
+  ⟨h.1, h.2.1, h.2.2.1, hermWitness_reports.1,
+    fun b X => C01_matmat_partial hermWitness h.1 h.2.1 h.2.2.1 b X,
+    C01_toDense_partial hermWitness h.1 h.2.1 h.2.2.1⟩
+
 /-- non-vacuity: a nested tree satisfying the hypotheses. -/
 example :
     let A : Op Int := .kron [.dense .f64 2 1 (fun i _ => i + 1), .prod [.eye .f64 2, .diag .f64 2 (fun i => i + 2)]]
@@ -84,7 +171,16 @@ end C01
 #print axioms C01.C01_toDense_partial
 #print axioms C01.C01_dtype
 #print axioms C01.C01_result_dtype
+#print axioms C01.C01_result_dtype_model
+#print axioms C01.C01_result_dtype_promote
+#print axioms C01.C01_kronsum_accumulator
+#print axioms C01.C01_result_dtype_wf_needed
 #print axioms C01.C01_clause_needed
+#print axioms C01.C01_kernel_matmat
+#print axioms C01.C01_kernel_blocks_cover
+#print axioms C01.C01_kernel_update
+#print axioms C01.C01_kernel_blocks_example
+#print axioms C01.C01_hermWitness
 #print axioms kronMatmat_eq
 #print axioms kronSumMatmat_eq
 #print axioms bdiagMatmat_eq
